@@ -26,6 +26,14 @@ def run(tier, seed, scale=1.0):
     t0 = time.time()
     n = int((20000 if tier == "quick" else 1500000) * scale)
     res = vdriver.explore(common.spec("simnet", "failover", seed), n, chunk=max(200, n // 128), chunk_timeout=900)
+    # ARES_FLAG_PRIMARY ("only the first server of the list") is exercised by the general hostile histories: the one rule
+    # about it (health:primary-not-first) is this check's, everything else found there is C01's business and dropped here
+    n_h = int((20000 if tier == "quick" else 600000) * scale)
+    r2 = vdriver.explore(common.spec("simnet", "hostile", seed), n_h, chunk=max(250, n_h // 128), chunk_timeout=900)
+    r2.violations = [v for v in r2.violations if v["key"].startswith("health:")]
+    r2.counters = {"hostile_" + k: v for k, v in r2.counters.items() if k in ("cases", "rule_primary_keeps_first", "note.rule_primary_keeps_first")}
+    r2.fps = set()
+    res.merge(r2)
     return common.finish(PROP, tier, seed, "exploration", res, own, RULE, t0, min_conclusive=int(2000 * scale),
                          assumptions=["health counts are derived from the library's own public notifications",
                                       "fairness of the random choice under rotation is not judged"])
